@@ -485,7 +485,10 @@ pub fn run(ctx: &Ctx) -> Report {
                     if rng.bool() {
                         cmds.push(Cmd::init_db(b"db1"));
                     } else {
-                        cmds.push(Cmd::query(b"USE `db1`;"));
+                        // every spelling the property lists: with and without back-ticks and semicolon,
+                        // blanks, newlines or more semicolons behind it - one statement, one reply
+                        let t: &[u8] = *rng.pick(&[&b"USE `db1`;"[..], b"USE db1", b"use db1;", b"USE db1; ", b"use `db1`;\n", b"USE db1;;", b"USE  db1 ;  ", b"use db1\t", b"USE `db1` ; \n"]);
+                        cmds.push(Cmd::query(t));
                     }
                     if default_init {
                         rep.counters.class("init via default on_init".into());
